@@ -27,7 +27,7 @@ RULE = ("cases = (dataset, 1-4 variables with domains, condition tree, selection
         "when all query variables are selected, and per-row for selected expressions. Non-trivial = >=2 variables, some "
         "leaf relates two variables or there is a different-variable disjunction, and the satisfying set is a non-empty "
         "proper subset of the product; distinct = distinct canonical JSON.")
-BUDGET = {"quick": (8, 1400), "thorough": (16, 8000)}
+BUDGET = {"quick": (8, 2600), "thorough": (16, 8000)}
 ASSUMPTIONS = ["each variable has its own container or shares one list object with another variable (never a shared "
                "one-shot iterator)", "conditions never raise under Python semantics (by construction)"]
 
@@ -39,7 +39,7 @@ def _cfg(tier):
                allow_nested_not="not_under_not" not in avoid, allow_empty_cond=True,
                select="any", desc=("entity", "set_of"), value_terms_in_select=True, force_relate=True,
                dom_kinds=("list", "list", "tuple"), avoid=frozenset(avoid), kw_vars=(1, 6),
-               extra_templates=("indep_and_or3", "indep_and_or3", "indep_and_join3", "indep_and_join3",
+               extra_templates=("indep_and_or3", "indep_and_or3", "indep_and_or3", "indep_and_or3", "indep_and_join3", "indep_and_join3",
                                 "and_left_or_then_other", "and_left_or_then_other", "value_equal_join",
                                 "value_equal_join", "value_equal_join"), earlier_sharing=(1, 5), clones=(1, 3))
 
